@@ -75,10 +75,16 @@ class Codec:
             step = max(1, len(cases) // 20000)
             # (not compared: races the scheduler decides - bursts of sends against the reader's shutdown - and whether the allocator
             # happened to hand out the same address again)
-            idx = [i for i in range(0, len(cases), step) if " BB " not in cases[i] and not cases[i].startswith(("DSWAP", "NET", "TLS", "RECONN"))]
-            rimpl = core.run_sharded([rel, "codec"], self.prelude, [cases[i] for i in idx], shards=shards, timeout=timeout)
+            # (lines that change what later cases see - dictionaries created, extended, swapped, dropped; the global dictionary - are
+            # always executed, sampled or not, in one worker, in order: leaving one out would make the two runs differ by construction)
+            control = ("D ", "DSWAP", "DADD", "DFORK", "DROP", "DGLOBAL", "POISON", "LIM ")
+            stateful = any(c.startswith(control) for c in cases)
+            idx = [i for i in range(len(cases)) if (i % step == 0 or cases[i].startswith(control)) and " BB " not in cases[i] and not cases[i].startswith(("NET", "TLS", "RECONN"))]
+            rimpl = core.run_sharded([rel, "codec"], self.prelude, [cases[i] for i in idx], shards=(1 if stateful else shards), timeout=timeout)
             self.chk.count("release-profile-cases", len(idx))
             for i, r in zip(idx, rimpl):
+                if cases[i].startswith("DSWAP"):
+                    continue
                 if r != impl[i] and not (r.startswith("CRASH") and impl[i].startswith("CRASH")):
                     self.chk.violation("the implementation behaves differently when built in the release profile (no debug assertions / overflow checks) than in the dev profile",
                                        dict(case=cases[i], release=r[:3000], dev=impl[i][:3000]))
